@@ -223,6 +223,7 @@ def run_impl(case, rng_thr=None):
         if recd.get("stopped"):
             break        # buffers are inconsistent after a threshold stop (known finding F2): chain ends
     return dict(stages=out, stream=[code(v) for v in rec.calls], int_scores=int_scores,
+                stream_raw=[[float(x) for x in v] for v in rec.calls],
                 full_fraction_after=getattr(sel, "full_fraction", None))
 
 
@@ -362,7 +363,7 @@ def fit_error_key(case, s):
 
 
 def run(ctx):
-    po = C.proof_obligations(ctx.prop)
+    po = C.proof_obligations(ctx.prop, extra_targets=["Model/Resolve.vo"])
     ncases = 500 if ctx.quick else 8000
     cases, ress = [], []
     stats = dict(kinds={}, stops=0, warm_stages=0, rejects=0, frac=0, none=0, ties=0, multi_y=0,
